@@ -32,6 +32,7 @@ type VerifDriver interface {
 	Tick()                     // the worker's ticker arm with the current virtual time
 	GuardHeld() bool           // the mutex is held by somebody right now
 	TrySize() (n int, ok bool) // len(refer) if the mutex is free right now (never blocks)
+	SetNextID(n int)           // position the id counter (e.g. just below its wrap)
 	Probe() (nodes []VerifNode, consistent bool)
 }
 
@@ -96,6 +97,12 @@ func (v *VerifWheel) TrySize() (int, bool) {
 		return len(v.t.refer), true
 	}
 	return 0, false
+}
+
+func (v *VerifWheel) SetNextID(n int) {
+	v.t.guard.Lock()
+	v.t.nextId = n
+	v.t.guard.Unlock()
 }
 
 func (v *VerifWheel) Probe() (nodes []VerifNode, consistent bool) {
@@ -191,6 +198,12 @@ func (v *VerifHeap) TrySize() (int, bool) {
 		return len(v.s.refer), true
 	}
 	return 0, false
+}
+
+func (v *VerifHeap) SetNextID(n int) {
+	v.s.guard.Lock()
+	v.s.nextId = n
+	v.s.guard.Unlock()
 }
 
 // Probe lists the heap array in array order (Level 0, Slot = the node's own index
